@@ -211,9 +211,13 @@ def _r1(model, res, c, um):
                 init = model.lookup_method(m, cls, '__init__')
                 if init:
                     users.append((cname, (init[0].name, init[0].qualname_of(init[2]))))
+    sd_key = (um.name, um.functions.key_of('serialize_date'))
+    # the conversion proper may be a helper the converter delegates to; going straight to that helper is going through the converter
+    pd_reach = cg.reachable([(um.name, um.functions.key_of('parse_date'))])
+    core = set(k_ for k_ in cg.reachable([sd_key]) if k_[0] == um.name and k_ not in pd_reach) | set([sd_key])
     for name, key in users:
         reach = cg.reachable([key])
-        ok = (um.name, um.functions.key_of('serialize_date')) in reach
+        ok = bool(core & reach)
         res.ob('R1', name, 'obtains serials from the date->serial converter', ok)
         if not ok:
             m, f = cg.funcs[key]
